@@ -74,5 +74,6 @@ Proof.
     - exfalso. destruct Hn as [_ Hn]. do 3 apply le_S_n in Hn. inversion Hn. }
   Local Transparent family_passes. unfold family_passes in Hp. rewrite forallb_forall in Hp. specialize (Hp _ Hops).
   rewrite forallb_forall in Hp. specialize (Hp _ Houts). unfold passes in Hp.
-  destruct (ssa_model (mk_fun ops outs)) as [f'|e|]; try discriminate. exists f'. auto.
+  destruct (ssa_model (mk_fun ops outs)) as [f'|e|]; [|discriminate Hp|discriminate Hp].
+  exists f'. split; [reflexivity|exact Hp].
 Qed.
